@@ -49,6 +49,15 @@ def cases(tier, rng, dist):
                # how the user's randomizer delivers the new assignment: a fresh array bound to data.group (as randomize_group
                # does) or the existing array overwritten in place (as randomize_in_strata does)
                "rand_style": rng.choice(["rebind", "inplace", "inplace"])}
+    # the data in force are the Experiment's CURRENT arrays: the caller edits responses (or the strata column) in place
+    # between two sim_npc calls; the second call must equal the same call on a fresh Experiment holding the edited data
+    for _ in range(12 if tier == "quick" else 120):
+        n = rng.randint(4, 8)
+        g = [0, 1] + [rng.randrange(2) for _ in range(n - 2)]; rng.shuffle(g)
+        yield {"f": "sim_edit", "g": g, "resp1": [[rng.randint(-5, 5), rng.randint(-5, 5)] for _ in range(n)],
+               "resp2": [[rng.randint(-5, 5), rng.randint(-5, 5)] for _ in range(n)], "strata": [rng.randrange(2) for _ in range(n)],
+               "strat": rng.random() < 0.5, "in_place": rng.random() < 0.3, "seed": rng.randint(0, 10**6), "reps": rng.randint(3, 8),
+               "comb": rng.choice(["fisher", "tippett"]), "fn": rng.choice(["sim_npc", "westfall_young"])}
     # malformed shapes
     for spec in ("fisher", "tippett"):
         yield {"f": "npc", "distr": [["1", "2"], ["0", "1"]], "obs_row": None, "p": ["1/2"], "comb": spec, "plus1": True, "dtype": "float"}
@@ -91,9 +100,35 @@ def run_sim(c):
             "group_after": [int(g) for g in data.group]}
 
 
+def run_sim_edit(c):
+    Ex = NPC.Experiment
+    rfn = NPC.randomize_in_strata if c["strat"] else NPC.randomize_group
+    tests = Ex.make_test_array(Ex.TestFunc.mean_diff, [0, 1])
+    def mk(resp):
+        return Ex(group=list(c["g"]), response=[list(map(float, r)) for r in resp], covariate=[[s, 7] for s in c["strata"]],
+                  randomizer=Ex.Randomizer(randomize=rfn))
+    def call(e):
+        if c["fn"] == "sim_npc":
+            r = NPC.sim_npc(e, tests, combine=c["comb"], in_place=c["in_place"], reps=c["reps"], seed=c["seed"])
+            return [float(r[0]), [float(v) for v in r[1]], [float(v) for v in r[2]]]
+        r = NPC.westfall_young(e, tests, in_place=c["in_place"], reps=c["reps"], seed=c["seed"])
+        return [[float(v) for v in r[0]], [float(v) for v in r[1]]]
+    e = mk(c["resp1"])
+    r1 = guarded(lambda: call(e))
+    g_after1 = [int(v) for v in e.group]
+    e.response[:, :] = np.array(c["resp2"], dtype=float)          # the caller's in-place edit
+    e.group = np.array(c["g"])                                    # (start the second call from the original assignment)
+    r2 = guarded(lambda: call(e))
+    fresh = mk(c["resp2"])
+    r3 = guarded(lambda: call(fresh))
+    return {"r1": list(r1), "r2": list(r2), "fresh": list(r3), "g_after1": g_after1}
+
+
 def run(c):
     if c["f"] == "sim":
         return run_sim(c)
+    if c["f"] == "sim_edit":
+        return run_sim_edit(c)
     m, p = pvals_of(c)
     dt = {"float": float, "int": np.int64, "uint8": np.uint8, "uint64": np.uint64}[c["dtype"]]
     d = interned(np.array([[float(v) for v in r] for r in m]).astype(dt))
@@ -105,6 +140,16 @@ def run(c):
 
 
 def oracle(c, o):
+    if c["f"] == "sim_edit":
+        if any(o[k][0] != "ok" for k in ("r1", "r2", "fresh")):
+            _v = emit({"why": f"{c['fn']} raised: {[o[k][:2] for k in ('r1', 'r2', 'fresh')]}", "cls": "sim_npc:raises"})
+            if _v: return _v
+            return None
+        if o["r2"][1] != o["fresh"][1]:
+            _v = emit({"why": f"{c['fn']}(in_place={c['in_place']}, seed={c['seed']}) on an Experiment whose responses were edited in place after an earlier call returned {str(o['r2'][1])[:200]}; "
+                              f"a fresh Experiment holding the same data gives {str(o['fresh'][1])[:200]} (responses before {c['resp1']}, after {c['resp2']})", "cls": "sim_npc:rank-pvalue"})
+            if _v: return _v
+        return None
     if c["f"] == "sim":
         t = [[Fraction(v) for v in r] for r in c["table"]]
         obs, sims = t[0], t[1:]
@@ -155,6 +200,8 @@ def oracle(c, o):
 
 
 def to_coq(c, o):
+    if c["f"] == "sim_edit":
+        return None
     r = o["r"]
     if c["f"] == "sim":
         t = [[Fraction(v) for v in row] for row in c["table"]]
@@ -177,6 +224,8 @@ def to_coq(c, o):
 
 
 def nontrivial(c, o):
+    if c["f"] == "sim_edit":
+        return o["r2"][0] == "ok"
     r = o["r"]
     if r[0] != "ok":
         return False
